@@ -340,6 +340,7 @@ impl Accum {
     }
 }
 
+#[derive(Clone)]
 pub struct WorkerArgs {
     pub prop: u8,
     pub thorough: bool,
